@@ -631,7 +631,63 @@ def rule_named_gates(ctx):
               "with client_cert_required an empty post-handshake Certificate must be refused", f.loc())
 
 
+def rule_chain_source(ctx):
+    """CHAIN-SOURCE: the server chain a client records for a handshake comes from what it received and
+    verified in THIS handshake: the reaching-definition slice of the `serverCertChain` argument of
+    Session.create in the client flows never reads the previously established session (the `session`
+    parameter / self.session), whose chain was proven in another handshake, possibly by another peer."""
+    R = "C05.CHAIN-SOURCE"
+    cr = ctx.index.func("session:Session.create")
+    params = [a.arg for a in cr.node.args.args[1:]]
+    if "serverCertChain" not in params:
+        raise AnalysisError("C05.CHAIN-SOURCE: Session.create has no serverCertChain parameter")
+    pos = params.index("serverCertChain")
+    sites = 0
+    for q in (TLSCONN + "_handshakeClientAsyncHelper", TLSCONN + "_clientTLS13Handshake"):
+        fi = ctx.index.func(q)
+        g = ctx.an.cfg(fi)
+        for n in g.nodes:
+            if n.kind != "stmt" or n.ast is None:
+                continue
+            for c in calls_in(n.ast):
+                if call_name(c) != "create" or norm(c.func.value) not in ("self.session", "session"):
+                    continue
+                arg = c.args[pos] if len(c.args) > pos else next(
+                    (k.value for k in c.keywords if k.arg == "serverCertChain"), None)
+                if arg is None:
+                    continue
+                sites += 1
+                # flow-sensitive backward slice over simple assignments
+                todo = [(n, arg)]
+                seen = set()
+                bad = None
+                while todo and bad is None:
+                    at, e = todo.pop()
+                    for x in ast.walk(e):
+                        if isinstance(x, ast.Attribute) and (attr_chain(x) or "").startswith("self.session"):
+                            bad = (at, x)
+                        if not isinstance(x, ast.Name) or not isinstance(x.ctx, ast.Load):
+                            continue
+                        if x.id == "session":
+                            bad = (at, x)
+                            break
+                        for d in reaching_defs(g, at, x.id):
+                            if d.id in seen or d.ast is None:
+                                continue
+                            seen.add(d.id)
+                            if isinstance(d.ast, ast.Assign):
+                                todo.append((d, d.ast.value))
+                ctx.check(R, bad is None, fi.qname, "serverCertChain recorded by %s comes from this handshake" % fi.short,
+                          "the server certificate chain recorded for this handshake is taken from the previously "
+                          "established session (`%s`): a peer that never presented (or proved) that certificate - "
+                          "e.g. one selected through an unrelated PSK - is reported, and accepted by a Checker, as "
+                          "its owner" % (norm(bad[0].ast)[:80] if bad else ""),
+                          fi.loc(bad[0].ast) if bad else fi.loc(n.ast))
+    ctx.require(sites >= 2, "C05.CHAIN-SOURCE: %d client Session.create sites found, floor 2" % sites)
+
+
 RULES = [
+    ("C05.CHAIN-SOURCE", "quick", rule_chain_source),
     ("C05.AUTH13", "quick", rule_auth13),
     ("C05.GATES", "quick", rule_named_gates),
     ("C05.SIG", "quick", rule_sig),
